@@ -36,7 +36,6 @@ func verif_contract_arp_spoofer_Handler_reply(h *Handler, dst net.HardwareAddr, 
 	vCanary()
 	n0 := vWireCount()
 	vModifiesWire()
-	vModifiesHeap()
 	err := h.reply(dst, sender, target)
 	vEnsures(vWireCount() == n0+1)
 	vEnsures(spec_arp_frame(vWireLast(), packet.ARPOperationReply, h.session.NICInfo.HostAddr4.MAC, dst, sender, target))
@@ -52,7 +51,6 @@ func verif_contract_arp_spoofer_Handler_RequestRaw(h *Handler, dst net.HardwareA
 	vCanary()
 	n0 := vWireCount()
 	vModifiesWire()
-	vModifiesHeap()
 	err := h.RequestRaw(dst, sender, target)
 	vEnsures(vWireCount() == n0+1)
 	vEnsures(spec_arp_frame(vWireLast(), packet.ARPOperationRequest, h.session.NICInfo.HostAddr4.MAC, dst, sender, target))
@@ -112,4 +110,113 @@ func verif_lemma_strkey(h *Handler, b []byte) {
 	m := packet.ARP(b).SrcMAC()
 	_, c := h.huntList[string(m)]
 	vAssert(a == c)
+}
+
+// StartHunt: rejects targets without MAC or IPv4 address; otherwise the MAC is in the hunt
+// list afterwards, a second call for the same MAC changes nothing (idempotent), entries of
+// other MACs are untouched and the call itself sends no frame (the spoof loop is a goroutine).
+//
+//verif:props C13
+func verif_contract_arp_spoofer_Handler_StartHunt(h *Handler, addr packet.Addr, other net.HardwareAddr) (packet.HuntStage, error) {
+	vRequires(spec_handler_ok(h))
+	vCanary()
+	_, was := h.huntList[string(addr.MAC)]
+	o0, oin0 := h.huntList[string(other)]
+	n0 := len(h.huntList)
+	w0 := vWireCount()
+	ok0 := spec_huntlist_ok(h)
+	vModifiesMems("map[string]github.com/irai/packet.Addr")
+	st, err := h.StartHunt(addr)
+	vEnsures(vWireCount() == w0)
+	if ok0 && len(addr.MAC) == 6 {
+		vEnsures(spec_huntlist_ok(h)) // entries keep a 6-byte MAC and an IPv4 address
+	}
+	if addr.MAC == nil || !addr.IP.Is4() {
+		vEnsures(err != nil && len(h.huntList) == n0)
+	} else {
+		e, now := h.huntList[string(addr.MAC)]
+		vEnsures(err == nil && st == packet.StageHunt && now)
+		if was {
+			vEnsures(len(h.huntList) == n0)
+		} else {
+			vEnsures(len(h.huntList) == n0+1 && e.IP == addr.IP)
+		}
+	}
+	if string(other) != string(addr.MAC) {
+		o1, oin1 := h.huntList[string(other)]
+		vEnsures(oin1 == oin0 && o1.IP == o0.IP)
+	}
+	return st, err
+}
+
+// StopHunt: the MAC is not in the hunt list afterwards; other entries are untouched; no frame is sent by the call.
+//
+//verif:props C13
+func verif_contract_arp_spoofer_Handler_StopHunt(h *Handler, addr packet.Addr, other net.HardwareAddr) (packet.HuntStage, error) {
+	vRequires(spec_handler_ok(h))
+	vCanary()
+	o0, oin0 := h.huntList[string(other)]
+	w0 := vWireCount()
+	ok0 := spec_huntlist_ok(h)
+	vModifiesMems("map[string]github.com/irai/packet.Addr")
+	st, err := h.StopHunt(addr)
+	vEnsures(vWireCount() == w0 && err == nil)
+	if ok0 {
+		vEnsures(spec_huntlist_ok(h))
+	}
+	_, now := h.huntList[string(addr.MAC)]
+	vEnsures(!now)
+	if string(other) != string(addr.MAC) {
+		o1, oin1 := h.huntList[string(other)]
+		vEnsures(oin1 == oin0 && o1.IP == o0.IP)
+	}
+	return st, err
+}
+
+// spec_huntlist_ok: every hunt-list entry holds a 6-byte MAC and an IPv4 address.
+func spec_huntlist_ok(h *Handler) bool {
+	return vMapAll(h.huntList, func(k string, v packet.Addr) bool { return len(v.MAC) == 6 && v.IP.Is4() })
+}
+
+// spec_hunted: some hunt-list entry carries exactly this MAC.
+func spec_hunted(h *Handler, m []byte) bool {
+	return !vMapAll(h.huntList, func(k string, v packet.Addr) bool {
+		return !(len(v.MAC) == 6 && v.MAC[0] == m[0] && v.MAC[1] == m[1] && v.MAC[2] == m[2] && v.MAC[3] == m[3] && v.MAC[4] == m[4] && v.MAC[5] == m[5])
+	})
+}
+
+// invariant of the spoof loop: the handler and the hunt list stay well-formed
+func verif_inv_arp_spoofer_Handler_spoofLoop_1(h *Handler) bool {
+	return spec_handler_ok(h) && spec_huntlist_ok(h)
+}
+
+// The spoof loop (C13, confinement): every frame it sends that binds the router's IP to our
+// MAC (the forged announcement) goes to a MAC that is in the hunt list at that moment; the
+// only other frame it sends is the corrective request carrying the router's real MAC, sent
+// when the target is no longer hunted. The loop runs until then: partial correctness.
+//
+//verif:props C13 C07
+//verif:timeout 120s
+func verif_lemma_spoofloop_confined(h *Handler, addr packet.Addr) {
+	vRequires(spec_handler_ok(h) && spec_huntlist_ok(h) && len(addr.MAC) == 6 && addr.IP.Is4())
+	router := h.session.NICInfo.RouterAddr4
+	host := h.session.NICInfo.HostAddr4
+	vRequires(len(router.MAC) == 6 && router.IP.Is4())
+	// the router's real MAC is not our own (otherwise the corrective frame is indistinguishable from the forged one)
+	vRequires(!(router.MAC[0] == host.MAC[0] && router.MAC[1] == host.MAC[1] && router.MAC[2] == host.MAC[2] &&
+		router.MAC[3] == host.MAC[3] && router.MAC[4] == host.MAC[4] && router.MAC[5] == host.MAC[5]))
+	vCanary()
+	vWireEach(func(w []byte) bool {
+		if len(w) != 42 || w[12] != 0x08 || w[13] != 0x06 {
+			return false // only ARP frames
+		}
+		// Ethernet source is always the host NIC MAC
+		if !(w[6] == host.MAC[0] && w[7] == host.MAC[1] && w[8] == host.MAC[2] && w[9] == host.MAC[3] && w[10] == host.MAC[4] && w[11] == host.MAC[5]) {
+			return false
+		}
+		forged := router.IP.As4() == [4]byte{w[28], w[29], w[30], w[31]} &&
+			w[22] == host.MAC[0] && w[23] == host.MAC[1] && w[24] == host.MAC[2] && w[25] == host.MAC[3] && w[26] == host.MAC[4] && w[27] == host.MAC[5]
+		return !forged || spec_hunted(h, w[0:6])
+	})
+	h.spoofLoop(addr)
 }
